@@ -621,6 +621,26 @@ func ruleC02SEID(w *World, r *Report, handlers map[string]*ssa.Function, accepte
 					}
 					return len(cells) == 1
 				}
+				// a store that puts the cell's own content into the field — `session.remoteSEID = remoteSEID` —
+				// leaves cell and field equal whatever path led there: the copy is current after it
+				if cl, ok := st.Val.(*ssa.UnOp); ok && cl.Op == token.MUL && len(cells) == 1 && cl.X == cells[0] && cl.Block() == st.Block() {
+					between, clean := false, true
+					for _, x := range st.Block().Instrs {
+						if x == ssa.Instruction(cl) {
+							between = true
+						} else if x == ssa.Instruction(st) {
+							break
+						} else if between {
+							switch x.(type) {
+							case *ssa.Store, ssa.CallInstruction:
+								clean = false
+							}
+						}
+					}
+					if between && clean {
+						return
+					}
+				}
 				stale := reach(h, ld, func(x ssa.Instruction) bool { return x == ssa.Instruction(st) }, rewritten, nil) != nil
 				r.check(!stale, "R02.3", hn, "CP SEID is read after the request's CP F-SEID was applied", w.Pos(ld.Pos()), "no store to session.remoteSEID follows the read", "session.remoteSEID is copied for the response before the CP F-SEID of this request is applied: the response is addressed to the old CP SEID")
 			})
